@@ -57,11 +57,7 @@ func newHarness() *harness {
 	for _, k := range keys {
 		sb.WriteString(k.JS + ",")
 	}
-	sb.WriteString("];H.descs=[")
-	for _, d := range descs {
-		sb.WriteString(d.JS() + ",")
-	}
-	sb.WriteString("];H.errName=function(e){try{return Object.getPrototypeOf(e)===TypeError.prototype?'TypeError':Object.getPrototypeOf(e)===RangeError.prototype?'RangeError':String(e)}catch(x){return 'value'}};")
+	sb.WriteString("];H.descs=[];H.errName=function(e){try{return Object.getPrototypeOf(e)===TypeError.prototype?'TypeError':Object.getPrototypeOf(e)===RangeError.prototype?'RangeError':String(e)}catch(x){return 'value'}};")
 	must(h.rt.RunString(sb.String()))
 	arr := func(name string, n int) []goja.Value {
 		a := h.H.Get(name).ToObject(h.rt)
@@ -73,7 +69,7 @@ func newHarness() *harness {
 	}
 	h.valVals = arr("vals", len(vals))
 	h.keyVals = arr("keys", len(keys))
-	h.descs = arr("descs", len(descs))
+	h.descs = make([]goja.Value, len(descs))
 	ops := h.H.Get("op").ToObject(h.rt)
 	for _, n := range ops.Keys() {
 		f, ok := goja.AssertFunction(ops.Get(n))
@@ -124,7 +120,7 @@ func (h *harness) newWorld(kind, variant string, chainKeys []int) *world {
 	}
 	args := []goja.Value{h.rt.ToValue(kind), h.rt.ToValue(variant), h.rt.ToValue(ks)}
 	if hk := hostKinds[kind]; hk != nil {
-		args = append(args, hk.Build(h.rt))
+		args = append(args, hk.Build(h.rt), h.rt.ToValue(hk.Unordered))
 	}
 	wv := must(h.mk(nil, args...))
 	wo := wv.ToObject(h.rt)
@@ -133,6 +129,14 @@ func (h *harness) newWorld(kind, variant string, chainKeys []int) *world {
 		w.role[i] = wo.Get(n).ToObject(h.rt)
 	}
 	return w
+}
+
+// desc returns the JS descriptor object number i (created on first use; the engine only reads it).
+func (h *harness) desc(i int) goja.Value {
+	if h.descs[i] == nil {
+		h.descs[i] = must(h.rt.RunString("(" + descs[i].JS() + ")"))
+	}
+	return h.descs[i]
 }
 
 func (w *world) roleValue(r uint8) goja.Value {
@@ -225,8 +229,26 @@ func (w *world) fnValue(which uint8, getter bool) goja.Value {
 	return w.h.H.Get("sg")
 }
 
-// exec runs one operation on the real objects through the route the op names.
+// exec runs one operation on the real objects through the route the op names. A Go panic escaping from the
+// engine (a host crash, not a JavaScript exception) is rendered as a result and poisons the runtime.
 func (w *world) exec(op Op) (res string) {
+	defer func() {
+		if x := recover(); x != nil {
+			if s, ok := x.(string); ok && (strings.HasPrefix(s, "real: unsupported") || strings.HasPrefix(s, "no ")) {
+				panic(x) // a bug of the check itself
+			}
+			w.h.dirty = true
+			msg := fmt.Sprint(x)
+			if len(msg) > 60 {
+				msg = msg[:60]
+			}
+			res = "gopanic:" + msg
+		}
+	}()
+	return w.exec1(op)
+}
+
+func (w *world) exec1(op Op) (res string) {
 	h := w.h
 	var t *goja.Object
 	if op.Tg <= obGrand {
@@ -240,11 +262,11 @@ func (w *world) exec(op Op) (res string) {
 	case opDefine:
 		switch op.Rt {
 		case rtObject:
-			return w.call("defO", t, kv, h.descs[op.D])
+			return w.call("defO", t, kv, h.desc(op.D))
 		case rtObject2:
-			return w.call("defPs", t, kv, h.descs[op.D])
+			return w.call("defPs", t, kv, h.desc(op.D))
 		case rtReflect:
-			return w.call("defR", t, kv, h.descs[op.D])
+			return w.call("defR", t, kv, h.desc(op.D))
 		case rtGo:
 			d := descs[op.D]
 			k := keys[op.K]
